@@ -1417,6 +1417,7 @@ class Stage:
             ret._placeholders[k_new] = (species, renew(expr), p_args, p_kwargs)
 
         ret.states = copy(self.states)
+        ret.qstates = copy(self.qstates)
         ret.controls = copy(self.controls)
         ret.algebraics = copy(self.algebraics)
         ret.parameters = deepcopy(self.parameters)
